@@ -49,7 +49,9 @@ class GssMonitor:
             closure_paths=0,
             frontiers=0,
             multi_revisit=0,
+            revisit_before_actor=0,
         )
+        self._actor_ids = set()
         self._limited = None
         self._revisit_ctx = None
         self._keep = []
@@ -80,6 +82,7 @@ class GssMonitor:
         def actor(self, head):
             mon.c["actor"] += 1
             mon.heads.append(head)
+            mon._actor_ids.add(id(head))
             return o["actor"](self, head)
 
         def do_reductions(self, head, production, update_parent=None):
@@ -87,6 +90,10 @@ class GssMonitor:
             mon._limited = update_parent
             if update_parent is not None:
                 mon.c["limited"] += 1
+                # by design only heads the actor has already processed are revisited; a head
+                # still waiting for the actor will do all its reductions anyway
+                if id(head) not in mon._actor_ids:
+                    mon.c["revisit_before_actor"] += 1
                 # heads revisited because of one new link: more than one means their order matters
                 rc = mon._revisit_ctx
                 if rc is not None and id(head) not in rc:
@@ -142,6 +149,7 @@ class GssMonitor:
             if mon.do_closure and not self._in_error_reporting and not self.dynamic_filter:
                 mon.check_closure(self)
             mon.heads = []
+            mon._actor_ids = set()
             mon.c["frontiers"] += 1
             before = set(id(h) for h in ())
             n_for = len(self._for_shifter)
